@@ -549,9 +549,11 @@ impl InnerLocustDB {
         if let Some(partition) = table.batch() {
             #[cfg(locustdb_verif)]
             crate::verif::gate("flush_table:batched", table.name());
+            // A concurrent query may already have added placeholder handles for columns this partition lacks.
             let columns: Vec<_> = partition
                 .clone_column_handles()
                 .into_iter()
+                .filter(|c| !c.is_empty())
                 .map(|c| c.try_get().as_ref().unwrap().clone())
                 .collect();
             let (metadata, subpartitions) = subpartition(&self.opts, columns);
